@@ -439,12 +439,17 @@ def check(ctx):
         aug = [a for a in ast.walk(omn) if isinstance(a, ast.AugAssign) and sname and norm(a.target) == sname]
         first = min(inv, key=lambda a: a.lineno) if inv else None
         # (a) a new set (never the node's own post_init_modified object, which an in-place update would corrupt for later calls)
-        fresh = first is not None and isinstance(first.value, ast.BinOp) and isinstance(first.value.op, ast.BitOr) and "self.post_init_modified" in norm(first.value)
+        fresh = first is not None and "self.post_init_modified" in norm(first.value) and (
+            (isinstance(first.value, ast.BinOp) and isinstance(first.value.op, ast.BitOr))
+            or norm(first.value) in ("set(self.post_init_modified)", "self.post_init_modified.copy()", "{*self.post_init_modified}"))      # an explicit copy is a new set too
+        # additions made with `.update(...)` / `.add(...)` on the set count like `|=`
+        upd = [c_.args[0] for c_ in ast.walk(omn) if isinstance(c_, ast.Call) and isinstance(c_.func, ast.Attribute) and c_.func.attr == "update" and sname and norm(c_.func.value) == sname and c_.args]
         ctx.check(fresh and all(a.lineno > first.lineno for a in aug), "C10.R7", f"{om.qualname}:invalid-fields", (first or omn.body[0]),
                   "the set of invalid fields is not built as a new set from post_init_modified: an in-place update mutates the node's own post_init_modified, so failed fields accumulate across calls", om, first or omn, detail="self.post_init_modified | {...}")
         # (b) it is made of field *names* (what validator dependencies are), for the fields whose alias has an error
-        txt = " ; ".join(norm(a.value) for a in inv) + " ; " + " ; ".join(norm(a.value) for a in aug)
-        names_ok = any(isinstance(c_, ast.SetComp) and norm(c_.elt).endswith(".name") and norm(c_.generators[0].iter) == "self.fields" and any(norm(i_).endswith(".alias in field_errors") or ".alias in field_errors" in norm(i_) for i_ in c_.generators[0].ifs) for a in inv + aug for c_ in ast.walk(a.value))
+        txt = " ; ".join(norm(a.value) for a in inv) + " ; " + " ; ".join(norm(a.value) for a in aug) + " ; " + " ; ".join(norm(u_) for u_ in upd)
+        names_ok = any(isinstance(c_, (ast.SetComp, ast.GeneratorExp)) and norm(c_.elt).endswith(".name") and norm(c_.generators[0].iter) == "self.fields" and any(norm(i_).endswith(".alias in field_errors") or ".alias in field_errors" in norm(i_) for i_ in c_.generators[0].ifs)
+                       for root_ in [a.value for a in inv + aug] + upd for c_ in ast.walk(root_))
         ctx.check(names_ok and "field_errors.keys()" not in txt, "C10.R7", f"{om.qualname}:invalid-names", (first or omn.body[0]),
                   "validators are filtered with error keys (aliases, or nested keys of a flattened object) although their dependencies are field names: with an alias different from the name a validator depending on the failed field runs on the mock (NonTrivialDependency / default value)", om, first or omn, detail="{field.name for field in self.fields if field.alias in field_errors}")
         agg_ok = any("not in values" in norm(a.value) and ".name" in norm(a.value) for a in inv + aug)
